@@ -9,7 +9,7 @@ use crate::mockpg::Rec;
 use crate::wire;
 use crate::world::{CloseKind, Cond, Opts, Outcome, Scenario, Step};
 
-pub const STATES: &[&str] = &["pre-startup", "awaiting-password", "idle", "in-transaction", "mid-batch", "copy-in", "session-held"];
+pub const STATES: &[&str] = &["pre-startup", "awaiting-password", "idle", "in-transaction", "mid-batch", "copy-in", "copy-in-data", "session-held"];
 
 pub fn templates() -> Vec<(&'static str, Vec<u8>, bool)> {
     // (name, bytes, typed?)
@@ -118,6 +118,13 @@ fn state_is_idle(state: &str) -> bool {
 }
 
 pub fn scenario(replica_only: bool, cache: usize, state: &str, tname: &str, mname: &str, bytes: &[u8], hold: bool) -> Scenario {
+    scenario_follow(replica_only, cache, state, tname, mname, bytes, hold, "none")
+}
+
+/// `follow`: what the attacker does after the hostile message, before leaving — whatever the hostile
+/// message left behind in the pooler (a buffered byte, a flag) meets ordinary traffic.
+#[allow(clippy::too_many_arguments)]
+pub fn scenario_follow(replica_only: bool, cache: usize, state: &str, tname: &str, mname: &str, bytes: &[u8], hold: bool, follow: &str) -> Scenario {
     let mode = if state == "session-held" { "session" } else { "transaction" };
     let mut pool = if replica_only { PoolCfg::simple("db", mode, 1, 0, 1) } else { PoolCfg::simple("db", mode, 1, 1, 0) };
     pool.extra = format!("prepared_statements_cache_size = {}\n", cache);
@@ -140,6 +147,14 @@ pub fn scenario(replica_only: bool, cache: usize, state: &str, tname: &str, mnam
                 .send(wire::query(&format!("COPY t FROM STDIN /*{}*/", tag(0, 0, 0))), "Q COPY")
                 .wait(Cond::CodeOrClosed(b'G', 1));
         }
+        "copy-in-data" => {
+            // COPY in progress with one small CopyData the pooler still holds in its buffer
+            a = a
+                .connect("alice", "db", Some("alicepw"))
+                .send(wire::query(&format!("COPY t FROM STDIN /*{}*/", tag(0, 0, 0))), "Q COPY")
+                .wait(Cond::CodeOrClosed(b'G', 1))
+                .send(wire::copy_data(format!("row {}\n", tag(0, 0, 1)).as_bytes()), "d");
+        }
         "session-held" => a = a.connect("alice", "db", Some("alicepw")).q(&format!("SELECT 1 /*{}*/", tag(0, 0, 0))),
         _ => panic!("state"),
     }
@@ -148,6 +163,36 @@ pub fn scenario(replica_only: bool, cache: usize, state: &str, tname: &str, mnam
     if hold && state_is_idle(state) {
         // stay connected while the canary runs a transaction
         a = a.wait(Cond::ActorAt(1, 4));
+    }
+    // (the attacker never waits for an answer it may not get: everything is pipelined, then it lingers
+    // for half a second of virtual time and leaves)
+    match follow {
+        "none" => {}
+        "copy-big" => {
+            // a COPY whose single CopyData is larger than the pooler's 8196-byte forwarding threshold, ended by a query
+            a = a
+                .send(wire::query(&format!("COPY t FROM STDIN /*{}*/", tag(0, 5, 0))), "Q COPY (follow-up)")
+                .send(wire::copy_data(&vec![b'z'; 9000]), "d[9000]")
+                .send(wire::query(&format!("ROLLBACK /*{}*/", tag(0, 5, 1))), "Q ROLLBACK")
+                .send(wire::query(&format!("SELECT 'poison' /*{}*/", tag(0, 5, 2))), "Q SELECT 'poison'")
+                .wait(Cond::TimeMs(500))
+                .send(wire::terminate(), "X");
+        }
+        "ext" => {
+            let mut b = wire::parse("", &format!("SELECT 'follow' /*{}*/", tag(0, 5, 0)), &[]);
+            b.extend(wire::bind("", "", &[], &[Some(tag(0, 5, 1).into_bytes())], &[]));
+            b.extend(wire::execute("", 0));
+            b.extend(wire::sync());
+            a = a.send(b, "P B E S (follow-up)").send(wire::query(&format!("SELECT 'follow2' /*{}*/", tag(0, 6, 0))), "Q").wait(Cond::TimeMs(500)).send(wire::terminate(), "X");
+        }
+        "queries" => {
+            a = a
+                .send(wire::query(&format!("SELECT 'follow' /*{}*/", tag(0, 5, 0))), "Q (follow-up)")
+                .send(wire::query(&format!("COMMIT /*{}*/", tag(0, 5, 1))), "Q COMMIT")
+                .wait(Cond::TimeMs(500))
+                .send(wire::terminate(), "X");
+        }
+        _ => panic!("follow"),
     }
     a = a.close(CloseKind::HardDrop);
     let mut batch = wire::parse("k1", &format!("SELECT 'k' /*{}*/", tag(1, 3, 0)), &[]);
@@ -166,20 +211,21 @@ pub fn scenario(replica_only: bool, cache: usize, state: &str, tname: &str, mnam
         .terminate();
     Scenario {
         name: format!(
-            "C11 pool={} cache={} state={} msg={} mut={} hold={}",
+            "C11 pool={} cache={} state={} msg={} mut={} hold={}{}",
             if replica_only { "replica-only" } else { "primary" },
             cache,
             state,
             tname,
             mname,
-            hold
+            hold,
+            if follow == "none" { String::new() } else { format!(" follow={}", follow) }
         ),
         toml: cfg.toml(),
         alt_tomls: vec![],
         servers,
         actors: vec![a.actor(), canary.actor(), env("final", vec![Step::Wait(Cond::ActorsDone(vec![0, 1])), Step::Probe])],
         opts: Opts::default(),
-        meta: serde_json::json!({"state": state, "msg": tname, "mut": mname, "hold": hold}),
+        meta: serde_json::json!({"state": state, "msg": tname, "mut": mname, "hold": hold, "follow": follow}),
     }
 }
 
@@ -190,7 +236,8 @@ pub fn oracle(sc: &Scenario, out: &Outcome) -> Vec<Violation> {
     let tname = sc.meta["msg"].as_str().unwrap();
     let mname = sc.meta["mut"].as_str().unwrap();
     let mclass = scrub(mname);
-    let ctx = format!("state={}:msg={}:mut={}", state, tname, mclass);
+    let follow = sc.meta["follow"].as_str().unwrap_or("none");
+    let ctx = if follow == "none" { format!("state={}:msg={}:mut={}", state, tname, mclass) } else { format!("state={}:msg={}:mut={}:follow={}", state, tname, mclass, follow) };
     // the pooler and every other task stay alive
     for p in has_panic(log) {
         if !p.contains("actor=0 ") {
@@ -309,6 +356,14 @@ pub fn build(tier: &str) -> SimCheck {
                         }
                     }
                     scenarios.push(scenario(replica_only, 0, state, tname, &mname, &mb, false));
+                    // ordinary traffic after the hostile message (out-of-order well-formed messages and unknown types)
+                    if !replica_only && !["pre-startup", "awaiting-password"].contains(state) && (mname == "wellformed" || mname.starts_with("typeFF") || (thorough && mname.starts_with("len-true"))) {
+                        for follow in ["copy-big", "ext", "queries"] {
+                            for cache in [0usize, 8] {
+                                scenarios.push(scenario_follow(false, cache, state, tname, &mname, &mb, false, follow));
+                            }
+                        }
+                    }
                     if state_is_idle(state) && (thorough || mname.starts_with("len") || mname == "wellformed" || mname.starts_with("trunc5") || mname.starts_with("type")) {
                         scenarios.push(scenario(replica_only, 0, state, tname, &mname, &mb, true));
                     }
@@ -325,7 +380,7 @@ pub fn build(tier: &str) -> SimCheck {
         oracle: Box::new(oracle),
         bound: if thorough { 1 } else { 0 },
         limits: Limits { max_wall_s: if thorough { 2400.0 } else { 55.0 }, ..Default::default() },
-        rule: "scenario = pool (single primary / single replica, pool_size 1) x attacker protocol state (pre-startup, awaiting password, idle, in transaction, mid extended batch, COPY IN, session-mode held) x 16 message templates x mutations (truncation at byte offsets, 8 length-field values, NULs stripped, counts -1/32767, parameter length -1/huge, unknown type bytes, other startup codes, well-formed but out of order; every mutation of Parse/Bind/Describe/Execute/Close also followed by a Sync that flushes the batch) x attacker stays connected or leaves; a canary shares the pool and runs a transaction during and after; then a pooler-state probe".into(),
+        rule: "scenario = pool (single primary / single replica, pool_size 1) x attacker protocol state (pre-startup, awaiting password, idle, in transaction, mid extended batch, COPY IN, COPY IN with buffered CopyData, session-mode held) x 16 message templates x mutations (truncation at byte offsets, 8 length-field values, NULs stripped, counts -1/32767, parameter length -1/huge, unknown type bytes, other startup codes, well-formed but out of order; every mutation of Parse/Bind/Describe/Execute/Close also followed by a Sync that flushes the batch) x attacker stays connected or leaves, or first carries on with ordinary traffic (a COPY with a 9000-byte CopyData ended by a query, an extended batch, simple queries); a canary shares the pool and runs a transaction during and after; then a pooler-state probe".into(),
         assumptions: vec!["length fields capped at 1 MiB (memory exhaustion not decided)".into(), "a panic confined to the attacker's own task is a disconnect, allowed by the property".into()],
     }
 }
